@@ -107,7 +107,7 @@ pub struct RunReport {
 pub fn class_bears_on(class: &str, property: &str) -> bool {
     let c = class;
     match property {
-        "C04" => matches!(c, "panic" | "illegal-bestmove" | "non-termination" | "abort" | "limit-ignored"),
+        "C04" => matches!(c, "panic" | "illegal-bestmove" | "illegal-ponder" | "non-termination" | "abort" | "limit-ignored"),
         "C05" => matches!(
             c,
             "deadlock"
@@ -117,6 +117,7 @@ pub fn class_bears_on(class: &str, property: &str) -> bool {
                 | "unsolicited-readyok"
                 | "missing-bestmove"
                 | "unsolicited-bestmove"
+                | "illegal-ponder"
                 | "stop-not-honoured"
                 | "command-stuck"
                 | "limit-ignored"
@@ -126,7 +127,7 @@ pub fn class_bears_on(class: &str, property: &str) -> bool {
         "C08" => matches!(c, "depth-sequence" | "depth-exceeds-limit" | "pv-empty" | "pv-illegal" | "mate-length" | "mate-false" | "mate-zero" | "info-without-go"),
         "C09" => matches!(
             c,
-            "continued-after-stop" | "illegal-bestmove" | "game-mutated" | "panic" | "abort" | "followup-illegal-bestmove" | "followup-line" | "followup-panic" | "stop-late"
+            "continued-after-stop" | "illegal-bestmove" | "illegal-ponder" | "game-mutated" | "panic" | "abort" | "followup-illegal-bestmove" | "followup-line" | "followup-panic" | "stop-late"
         ),
         "C12" => matches!(c, "transcript-diff" | "newgame-not-fresh" | "bench-diff"),
         "C13" => matches!(
